@@ -16,8 +16,9 @@ class PipeStdin:
     producer is 'slow': it writes the next chunk only once the pipe has been
     drained, so a consumer that bypasses the buffered reader sees short reads."""
 
-    def __init__(self, data, rng, max_chunk=7, lockstep=True):
+    def __init__(self, data, rng, max_chunk=7, lockstep=True, feeder="thread"):
         r, w = os.pipe()
+        self.pid = None
         self.buffer = io.BufferedReader(io.FileIO(r, "rb", closefd=True))
         self._stop = False
         chunks = []
@@ -54,6 +55,24 @@ class PipeStdin:
                 except OSError:
                     pass
 
+        if feeder == "process":
+            # the producer is another PROCESS, as it is for a real `producer | tool`: the tool's own process has no extra
+            # thread (auditok's command line waits until it is the only thread left) and a tool that stops reading early
+            # leaves the producer blocked, not itself
+            pid = os.fork()
+            if pid == 0:
+                try:
+                    os.close(r)
+                except OSError:
+                    pass
+                try:
+                    feed()
+                finally:
+                    os._exit(0)
+            os.close(w)
+            self.pid = pid
+            self.thread = None
+            return
         self.thread = threading.Thread(target=feed, daemon=True, name="vf-stdin-feeder")
         self.thread.start()
 
@@ -67,4 +86,17 @@ class PipeStdin:
             self.buffer.close()  # unblocks a feeder stuck on a full pipe
         except Exception:
             pass
+        if self.pid is not None:
+            import signal
+
+            try:
+                os.kill(self.pid, signal.SIGKILL)
+            except OSError:
+                pass
+            try:
+                os.waitpid(self.pid, 0)
+            except OSError:
+                pass
+            self.pid = None
+            return
         self.thread.join(5)
